@@ -86,6 +86,7 @@ func C01(ctx *core.Ctx, r *core.Report) {
 	c01ConfigInheritance(ctx, r)
 	c01InsertsACopy(ctx, r)
 	c02OwnPrefixIsLocal(ctx, r)
+	c06RefineAppliesToTarget(ctx, r)
 	impliedCasePerNode(ctx, r)
 	c01SubmoduleMergeComplete(ctx, r)
 	r.Count("instances:lost-update(read-modify-write of a field)", lostUpdate(ctx, r, scopeFuncs(ctx, "meta", "resolver.go", "compile.go", "builder.go", "core.go", "core_gen.go")))
